@@ -1,4 +1,5 @@
 import GohtVerif.Model.Parser
+import GohtVerif.Model.GoLit
 /-! Prototype model of goht's emitter (template.go + nodes.go Source methods). -/
 namespace GL
 
@@ -133,30 +134,6 @@ def writeFormattedText (g : G) (w : W) (t : Tok) : G × W :=
   | none =>
     let (g, w, r) := twWrite g w t.lit
     (g.add t r, w)
-
-/-- strconv.Quote body, prototype: ASCII printable + the common escapes; other bytes as-is when valid UTF-8 printable.
-    (The real model needs `IsPrint`; the prototype treats every rune ≥ 0x80 that decodes validly as printable.) -/
-def hexd (n : Nat) : UInt8 := if n < 10 then UInt8.ofNat (48 + n) else UInt8.ofNat (87 + n)
-def quoteBodyRunes : List Rune → GoStr
-  | [] => []
-  | r :: rs =>
-    let rest := quoteBodyRunes rs
-    if r.cp == 0xFFFD && r.width == 1 then   -- invalid byte
-      match r.enc with
-      | _ => bs "\\x" ++ [hexd 0, hexd 0] ++ rest    -- placeholder (needs the raw byte; not reachable in the prototype corpus)
-    else if r.cp == 34 then bs "\\\"" ++ rest
-    else if r.cp == 92 then bs "\\\\" ++ rest
-    else if r.cp == 7 then bs "\\a" ++ rest
-    else if r.cp == 8 then bs "\\b" ++ rest
-    else if r.cp == 12 then bs "\\f" ++ rest
-    else if r.cp == 10 then bs "\\n" ++ rest
-    else if r.cp == 13 then bs "\\r" ++ rest
-    else if r.cp == 9 then bs "\\t" ++ rest
-    else if r.cp == 11 then bs "\\v" ++ rest
-    else if r.cp < 32 || r.cp == 127 then bs "\\x" ++ [hexd (r.cp / 16), hexd (r.cp % 16)] ++ rest
-    else r.enc ++ rest
-
-def quoteBody (s : GoStr) : GoStr := quoteBodyRunes (decodeAll s)
 
 def repeatStr (s : GoStr) : Nat → GoStr
   | 0 => []
